@@ -8,10 +8,14 @@ import CfrVerif.Proofs.NoPanic
 import CfrVerif.Proofs.WellFormed
 import CfrVerif.Proofs.LocksWide
 import CfrVerif.Proofs.LocksPerm
+import CfrVerif.Proofs.LocksVanilla
+import CfrVerif.Proofs.LocksVanillaPerm
 --! audit CfrVerif/Proofs/Locks.lean
 --! audit CfrVerif/Proofs/LocksCheck.lean
 --! audit CfrVerif/Proofs/LocksWide.lean
 --! audit CfrVerif/Proofs/LocksPerm.lean
+--! audit CfrVerif/Proofs/LocksVanilla.lean
+--! audit CfrVerif/Proofs/LocksVanillaPerm.lean
 /-!
 # C05 — every solve returns a well-formed strategy profile and never panics
 
@@ -38,8 +42,14 @@ overflow and NaN are outside the theorem and are sampled by the correspondence r
   in every configuration any thread schedule can reach, some worker can move unless all are done,
   no `try_lock` finds its mutex held, every schedule has exactly as many steps as there are events,
   and at the end every mutex is free (`external_pool_never_deadlocks`,
-  `external_workers_never_meet`).  The vanilla solvers use atomics and one blocking `lock()` per
-  chance draw with nothing acquired inside it.
+  `external_workers_never_meet`).  The full / chance-sampled solvers use atomics for the regrets and one
+  blocking `lock()` per average-strategy update and per chance draw with nothing acquired inside
+  it: `Model/LocksVanilla.lean` has their traces (`vtrace`), `vanilla_pool_never_deadlocks` the same
+  four statements for every split of the tree into tasks, `vtrace_draws_eq_vrec` that the trace is
+  that of the traversal `vrec`, `vtrace_acqCount` that an infoset's mutex is taken once per visited
+  node of the infoset, and `vanilla_multi_locks_eq_visits` that the frontier's tasks and the closing
+  recursion together take it exactly that often, for every task target (this count is compared
+  with the crate's lock log on every short multi-threaded run).
 -/
 set_option linter.unusedSectionVars false
 namespace Cfr
